@@ -168,21 +168,21 @@ theorem updateChain_grow (t : T) (name : String) (ch : Chain) : Grow t (t.update
     · exact incref_grow _ _ _
     · exact Grow.refl _
   generalize (if ch.force then T.incref fuel t name else t) = t1 at g1 ⊢
-  have g2 := maybeIncref_grow t1 name ch.rules
-  generalize t1.maybeIncref name ch.rules = t2 at g2 ⊢
-  refine (g1.trans g2).trans ?_
-  cases hch : t2.chains.get name with
+  refine g1.trans ?_
+  cases hch : t1.chains.get name with
   | none =>
     dsimp only
-    exact setChain_grow t2 name _ (fun c hc => by rw [Map.get_set]; simp [hc])
+    exact (maybeIncref_grow t1 name ch.rules).trans
+      (setChain_grow _ name _ (fun c hc => by rw [Map.get_set]; simp [hc]))
   | some old =>
     dsimp only
-    have g3 : Grow t2 (if old.force then T.decref fuel t2 name else t2) := by
+    have g2 : Grow t1 (if old.force then T.decref fuel t1 name else t1) := by
       split
       · exact decref_grow _ _ _
       · exact Grow.refl _
-    have g4 := maybeDecref_grow (if old.force then T.decref fuel t2 name else t2) name old.rules
-    exact (g3.trans g4).trans (setChain_grow _ name _ (fun c hc => by rw [Map.get_set]; simp [hc]))
+    have g3 := maybeIncref_grow (if old.force then T.decref fuel t1 name else t1) name ch.rules
+    have g4 := maybeDecref_grow ((if old.force then T.decref fuel t1 name else t1).maybeIncref name ch.rules) name old.rules
+    exact ((g2.trans g3).trans g4).trans (setChain_grow _ name _ (fun c hc => by rw [Map.get_set]; simp [hc]))
 
 theorem removeChain_grow (t : T) (name : String) : Grow t (t.removeChain name) := by
   unfold T.removeChain
